@@ -231,3 +231,40 @@ def random_graph(rng, letters, nstates):
             out[alphabet[int(rng.integers(0, len(alphabet)))]] = int(rng.integers(0, nstates))
         graph[s] = out
     return graph
+
+
+# ---------------------------------------------------------------------------
+# exact finite-order matrices
+
+def signed_permutations(rng, d, shape=(), involution=False, fix0=False):
+    """stack (shape + (d, d)) of signed permutation matrices, none of them the
+    identity: entries 0, +-1, so products, powers, inverses and transposes are
+    exact.  involution: products of disjoint transpositions with one sign per
+    2-cycle and arbitrary signs on fixed coordinates (coordinate reflections,
+    swaps: M.M = I exactly).  fix0: coordinate 0 is fixed with sign +1 (then the
+    matrix preserves diag(-1, 1, ..., 1): an exact element of O(n,1))."""
+    shape = tuple(shape)
+    out = np.zeros(shape + (d, d))
+    lo = 1 if fix0 else 0
+    for ind in np.ndindex(*shape):
+        while True:
+            perm = np.arange(d)
+            sign = rng.choice([-1.0, 1.0], size=d)
+            free = list(range(lo, d))
+            if involution:
+                order = [free[int(i)] for i in rng.permutation(len(free))]
+                npairs = int(rng.integers(0, len(order) // 2 + 1))
+                for k in range(npairs):
+                    i, j = order[2 * k], order[2 * k + 1]
+                    perm[i], perm[j] = j, i
+                    sign[j] = sign[i]
+            else:
+                perm[lo:] = np.array(free)[rng.permutation(len(free))]
+            if fix0:
+                sign[0] = 1.0
+            M = np.zeros((d, d))
+            M[np.arange(d), perm] = sign
+            if not np.array_equal(M, np.eye(d)):
+                break
+        out[ind] = M
+    return out
